@@ -76,7 +76,7 @@ impl Distribution1D for Binomial {
 pub fn binomial_inversion(n: u64, p: f64) -> u64 {
     let s = p / (1. - p);
     let a = ((n + 1) as f64) * s;
-    let r0 = (1. - p).powi(n as i32);
+    let r0 = (1. - p).powf(n as f64);
     // Rounding can leave the summed mass below the uniform draw; the loop would then run past n
     // forever. As in Kachitvichyanukul and Schmeiser's BINV, give up ten standard deviations above
     // the mean (or at n) and start again with a new draw.
